@@ -71,6 +71,11 @@ class Interp:
         self.last_return = None
         self.ret_counter = 0
         self.bad_refs = []
+        # staleness tracking: version of every field, bumped by any store; a derived field
+        # remembers the versions of the fields it was computed from
+        self.version = {}
+        self.mod_site = {}
+        self.deps = {}
 
     # ------------------------------------------------------------------ state helpers
     def method(self, name):
@@ -429,6 +434,14 @@ class Interp:
                     self.bad_reads.append((site, text, nm, loc))
             data[k] = v
             self.assign_sites[k] = self.site(s)
+            self._bump(k, s)
+            ops = {}
+            for n_ in ast.walk(value):
+                if isinstance(n_, (ast.Name, ast.Attribute)):
+                    ok_ = self.key_of(n_, st)
+                    if ok_ is not None and ok_ in data and ok_ != k:
+                        ops[ok_] = self.version.get(ok_, 0)
+            self.deps[k] = (ops, self.site(s))
             for loc in (ALL - v if not (isinstance(value, ast.Call) and dotted(value.func) == "MultiLocationArray") else ()):
                 why = None
                 if isinstance(value, ast.Call) and self.last_return is not None:
@@ -443,6 +456,7 @@ class Interp:
         if isinstance(tgt, ast.Attribute) and tgt.attr in LOCS:
             k = self.key_of(tgt.value, st)
             if k is not None and k in data:
+                self._bump(k, s)
                 reads = []
                 self.locs(value, st, reads)
                 if isinstance(t, ast.Subscript):
@@ -461,11 +475,27 @@ class Interp:
         rr = []
         self.locs(value, st, rr)
 
+    def _bump(self, k, s):
+        self.version[k] = self.version.get(k, 0) + 1
+        self.mod_site[k] = self.site(s)
+
+    def stale(self):
+        """(field, operand, site of the field's definition, site of the later store to the
+        operand): the field was computed from a value of the operand that is no longer the
+        one the region holds"""
+        out = []
+        for k, (ops, site) in sorted(self.deps.items()):
+            for o, ver in sorted(ops.items()):
+                if self.version.get(o, 0) > ver:
+                    out.append((k, o, site, self.mod_site.get(o)))
+        return out
+
     def augassign(self, s, st):
         data = st["data"]
         t = s.target
         k = self.key_of(t, st)
         if k is not None and k in data:
+            self._bump(k, s)
             reads = []
             v = self.locs(s.value, st, reads)
             if v is not None:
@@ -478,6 +508,7 @@ class Interp:
         if isinstance(tgt, ast.Attribute) and tgt.attr in LOCS:
             k = self.key_of(tgt.value, st)
             if k is not None and k in data:
+                self._bump(k, s)
                 reads = []
                 self.locs(s.value, st, reads)
                 if tgt.attr not in data[k]:
@@ -624,6 +655,9 @@ ARMS = {
     "non-orthogonal": {"orthogonal": False, "shiftedmetric": True, 'curvature_type == "curl(b/B) with x-y derivatives"': False,
                        'curvature_type == "curl(b/B)"': True, "cap_Bp_ylow_xpoint": False, "hasattr": True, "yGroupIndex != 0": False,
                        "Bp_dot_grady < 0": False, "psi_vals[0] > self.psi_vals[-1]": False},
+    "orthogonal/capBp": {"orthogonal": True, "shiftedmetric": True, 'curvature_type == "curl(b/B) with x-y derivatives"': False,
+                         'curvature_type == "curl(b/B)"': True, "cap_Bp_ylow_xpoint": True, "hasattr": True, "yGroupIndex != 0": False,
+                         "Bp_dot_grady < 0": False, "psi_vals[0] > self.psi_vals[-1]": False},
     "orthogonal/xy-curvature": {"orthogonal": True, "shiftedmetric": True, 'curvature_type == "curl(b/B) with x-y derivatives"': True,
                                 "cap_Bp_ylow_xpoint": False, "hasattr": True, "yGroupIndex != 0": False,
                                 "Bp_dot_grady < 0": False, "psi_vals[0] > self.psi_vals[-1]": False},
@@ -651,6 +685,24 @@ def infer(prog, arm):
             raise AnalysisError("phase %s raises unconditionally on arm %s" % (name, arm))
     _cache[key] = (it, st, order)
     return _cache[key]
+
+
+def check_fresh(prog, rep, rule, fields, arms):
+    """obligation per (arm, field): nothing the field was computed from is stored to afterwards,
+    so the arrays that reach the writer still satisfy the field's defining formula"""
+    for arm in arms:
+        it, st, order = infer(prog, arm)
+        stale = {}
+        for k, o, site, msite in it.stale():
+            stale.setdefault(k, []).append((o, site, msite))
+        for fld in fields:
+            k = "self." + fld
+            if k not in it.deps:
+                rep.ob(rule, "%s: %s is computed in the geometry phases" % (arm, fld), False, MESH, "no assignment of self.%s seen on this arm" % fld, key="fresh/%s/%s/absent" % (arm, fld))
+                continue
+            bad = stale.get(k, [])
+            rep.ob(rule, "%s: no operand of %s is modified after %s is computed (operands: %s)" % (arm, fld, fld, ", ".join(sorted(x[5:] for x in it.deps[k][0])) or "-"),
+                   not bad, it.deps[k][1], "; ".join("%s is stored to at %s, after %s was computed at %s" % (o[5:], ms, fld, s_) for o, s_, ms in bad), key="fresh/%s/%s" % (arm, fld))
 
 
 def check_fields(prog, rep, rule, fields, arms, need, prefix=""):
